@@ -105,7 +105,8 @@ def real_parse(text: str) -> tuple[str, str]:
     except (KeyboardInterrupt, SystemExit):
         raise
     except BaseException as e:  # noqa: BLE001
-        return type(e).__name__, site_of(e)
+        tag = "|enum-conversion" if isinstance(e, ValueError) and " is not a valid " in str(e) else ""
+        return type(e).__name__, site_of(e) + tag
 
 
 def budget(n: int) -> float:
@@ -351,7 +352,7 @@ def run(ctx: Ctx):
                 continue
             shown = t if len(t) <= 300 else t[:120] + f" ... ({len(t)} characters)"
             ctx.violate(f"{what[idx]} {shown!r}: {clause} " + (f"({r['out']} at {r['site']})" if clause == "FailsOnlyWithDiagnostics" else f"(more than {budget(len(t)):.1f} s of CPU)"),
-                        {"clause": clause, "exception": r["out"], "site": r["site"], "text": t if len(t) <= 3000 else t[:3000], "length": len(t), "probe": what[idx] if what[idx].startswith("probe") else ""},
+                        {"clause": clause, "exception": r["out"], "site": r["site"].split("|")[0], "enum_conversion": r["site"].endswith("|enum-conversion"), "text": t if len(t) <= 3000 else t[:3000], "length": len(t), "probe": what[idx] if what[idx].startswith("probe") else ""},
                         clause=clause)
         else:
             n_div += 1
